@@ -29,6 +29,11 @@ pub fn install_hook() {
     }));
 }
 
+/// The message of the last panic on this thread (not consumed).
+pub fn last_message() -> String {
+    LAST.try_with(|l| l.try_borrow().ok().and_then(|b| b.clone())).ok().flatten().unwrap_or_default()
+}
+
 pub fn payload_msg(p: &Box<dyn Any + Send>) -> String {
     let base = if let Some(s) = p.downcast_ref::<&str>() {
         s.to_string()
